@@ -263,6 +263,37 @@ class Ctx:
                 ok = False
         return ok
 
+    def not_changed_in(self, qualname, name):
+        """frame obligation (syntactic, conservative): inside `qualname` the local `name` is bound exactly once and the object is never
+        changed through it: no subscript store / delete / augmented assignment, no call of a mutating method, no alias (so no other name
+        can reach it).  Reading it (tests, lookups, iteration, f-strings) and handing it to a call as a whole argument are allowed; what
+        the callees do with it is their contracts' business"""
+        import ast
+        READERS = {"get", "items", "keys", "values", "copy", "__contains__", "__len__"}
+        f = self.I.resolve(qualname)
+        parents = {}
+        for n in ast.walk(f.node):
+            for ch in ast.iter_child_nodes(n):
+                parents[ch] = n
+        stores, ok = 0, True
+        for n in ast.walk(f.node):
+            if isinstance(n, ast.Name) and n.id == name:
+                p = parents.get(n)
+                if isinstance(n.ctx, ast.Store):
+                    stores += 1
+                    ok = ok and isinstance(p, (ast.Assign, ast.AnnAssign))
+                elif isinstance(n.ctx, ast.Del):
+                    ok = False
+                elif isinstance(p, ast.Subscript) and p.value is n:
+                    ok = ok and isinstance(p.ctx, ast.Load) and not isinstance(parents.get(p), ast.AugAssign)
+                elif isinstance(p, ast.Attribute):
+                    ok = ok and p.attr in READERS
+                elif isinstance(p, (ast.Assign, ast.AnnAssign, ast.NamedExpr, ast.Return, ast.Yield, ast.List, ast.Tuple, ast.Dict, ast.Set, ast.Starred)):
+                    ok = False          # alias / escape through a container
+                elif isinstance(p, ast.AugAssign):
+                    ok = False
+        return ok and stores == 1
+
     def fresh_choice(self, term, options):
         """constrain an integer term to one of the options (case split)"""
         k = self.E.choose(len(options))
